@@ -168,6 +168,8 @@ func C07(c *core.Ctx) {
 	ops := []Action{
 		sub("S", 1, "a", 1), sub("S", 2, "a/#", 2), {Kind: "sub", Client: "S", ID: 3, Filters: []string{"a", "b#", "+"}, QoSs: []byte{2, 1, 0}},
 		unsub("S", 4, "a"), {Kind: "unsub", Client: "S", ID: 5, Filters: []string{"a/#", "+", "nothing"}},
+		// a rejected filter that shares its leading level with granted ones (same packet and earlier packets)
+		{Kind: "sub", Client: "S", ID: 8, Filters: []string{"a/b", "a/#/x"}, QoSs: []byte{1, 1}},
 		pub("P", "a", 1, 6, "pa"), pub("P", "a/b", 0, 0, "pab"), pub("S", "a", 1, 7, "self"),
 	}
 	depth := 4
